@@ -2025,6 +2025,13 @@ func NewData(uuid dvid.UUID, id dvid.InstanceID, name dvid.InstanceName, c dvid.
 	data.IndexedLabels = indexedLabels
 	data.MaxDownresLevel = downresLevels
 
+	// Record the repo-wide maximum (0) of the new instance.  Without it a restart before the first
+	// label is stored finds no maximum at all and loadLabelIDs falls back to veryLargeLabel: the same
+	// instance answered "next label 1" while running and "next label 10000000001" after a restart.
+	if err := data.persistMaxRepoLabel(); err != nil {
+		return nil, fmt.Errorf("labelmap %q: unable to record initial max label: %v", name, err)
+	}
+
 	data.Initialize()
 	return data, nil
 }
